@@ -22,7 +22,7 @@ Print Assumptions C02_expression_inversion.
    the object id, the property number as an integer, the two-byte opcode) and  SSetObj  (its assignment form, 5D ..),
    the two inversion theorems cover the object-property families as well, nested to any depth inside the other
    forms; so do the Lingo-text theorems below (C02_emitted_text_is_canonical, C02_canonical_text_parses_back,
-   C02_statement_line); the JavaScript theorems exclude them (js_ok).  Non-vacuity: *)
+   C02_statement_line) and the JavaScript theorems (PropC04).  Non-vacuity: *)
 Example C02_object_property_example :
   let en := Build_env ["x"; "puppet"] [] [Leaf KLocal "i" 0 true] [] [] in
   let e := EObj FSprite 8 (EBin Add (ELoc 0) (EInt 1)) in          (* the height of sprite (i + 1) *)
